@@ -30,7 +30,7 @@ static json guarded(json st, const char* handler = "OTHERS") {
 
 struct C08 : RBase {
   const char* id() const override { return "C08"; }
-  long budget(const std::string& tier) const override { return tier == "thorough" ? 300000 : 10000; }
+  long budget(const std::string& tier) const override { return tier == "thorough" ? 300000 : 6000; }
   std::string rule() const override {
     return "plan = call history of up to 40 calls over a function set with conditionally assigned locals, a parameter and locals named like caller variables, parameters "
            "reassigned in the body, overloads by arity, recursion up to and beyond the 255 limit, bodies with loops and blocks; earlier calls end by return, by an error handled "
